@@ -3,7 +3,9 @@
    the OCaml driver only converts ints <-> N and prints. *)
 From Coq Require Import NArith List Bool.
 Import ListNotations.
+From Coq Require Import ZArith.
 From CXV Require Import Gen.TokTy Gen.ParserTables Parse.Balanced Gen.Blocks Parse.BlocksSM.
+From CXV Require Import Base.Regex Gen.LexRules Lex.PlyLoop.
 Open Scope N_scope.
 
 Definition nlen {A} (l : list A) : N := N.of_nat (length l).
@@ -62,8 +64,35 @@ Definition run_blocks (args : list N) : list N :=
   | [] => [99]
   end.
 
+Definition sumN (l : list N) : N := fold_left N.add l 0.
+Definition enc_Z (z : Z) : list N := match z with Z0 => [0; 0] | Zpos p => [0; Npos p] | Zneg p => [1; Npos p] end.
+Definition enc_loc (l : list N * Z) : list N := enc_Z (snd l) ++ [nlen (fst l); sumN (fst l)].
+
+Fixpoint enc_pieces (off : N) (ps : list piece) : list N :=
+  match ps with
+  | [] => []
+  | PTok ty t line loc :: r => (1 :: ty :: off :: nlen t :: line :: enc_loc loc) ++ enc_pieces (off + nlen t) r
+  | PIgn _ :: r => enc_pieces (off + 1) r
+  | PDrop t :: r => enc_pieces (off + nlen t) r
+  end.
+
+Definition run_lex (args : list N) : list N :=
+  match args with
+  | n :: r =>
+      let k := N.to_nat n in
+      let '(ps, o) := lex (take k r) (drop k r) in
+      enc_pieces 0 ps ++
+      match o with
+      | Done => [8]
+      | Failed kind loc t => 9 :: kind :: nlen t :: enc_loc loc
+      | OutOfFuel => [7]
+      end
+  | [] => [99]
+  end.
+
 Definition run_case (cmd : N) (args : list N) : list N :=
   match cmd, args with
+  | 20, _ => run_lex args
   | 10, _ => run_blocks args
   | 1, s :: e :: toks =>
       match discard idN s e 1 toks with
